@@ -20,8 +20,34 @@ KINDS = ['cut', 'server_close', 'server_abort', 'client_close',
          'client_abort', 'cut_client_only', 'cut_server_only']
 
 
+FLOW_N = 12000
+
+
 async def _server_process(proc):
     try:
+        if proc.command == 'flow':
+            # the peer has sent EOF; this side then writes more than window
+            # plus write buffer and waits in drain()
+            proc.stdout.channel.set_write_buffer_limits(high=2048)
+            await proc.stdin.read()
+            proc.stdout.write('x' * FLOW_N)
+            await proc.stdout.drain()
+            proc.stderr.write('e' * 3000)
+            await proc.stderr.drain()
+            proc.exit(0)
+            return
+        if proc.command == 'sink':
+            # EOF first, then read slowly what the peer pushes
+            proc.stdout.write('ready')
+            proc.stdout.write_eof()
+            n = 0
+            while True:
+                data = await proc.stdin.read(700)
+                if not data:
+                    break
+                n += len(data)
+            proc.exit(n % 251)
+            return
         async for line in proc.stdin:
             proc.stdout.write(line.upper())
             await proc.stdout.drain()
@@ -72,8 +98,35 @@ async def scenario(conn, log):
     log.append('end')
 
 
+async def scenario_flow(conn, log):
+    """Writers blocked by flow control (drain) after the peer's EOF, readers
+    blocked on data, on both sides, when the fault strikes."""
+    log.append('f0')
+    p1 = await conn.create_process('flow', window=1024, max_pktsize=512)
+    p1.stdin.write('abc')
+    p1.stdin.write_eof()
+    p2 = await conn.create_process('sink')
+    p2.stdin.channel.set_write_buffer_limits(high=2048)
+    ready = await p2.stdout.read()
+    log.append(('ready', ready))
+    p2.stdin.write('y' * FLOW_N)
+    await p2.stdin.drain()
+    log.append('drained')
+    p2.stdin.write_eof()
+    out, err = await asyncio.gather(p1.stdout.read(), p1.stderr.read())
+    log.append(('flow', len(out), len(err)))
+    r1, r2 = await asyncio.gather(p1.wait(), p2.wait())
+    log.append(('exit', r1.exit_status, r2.exit_status))
+    conn.close()
+    await conn.wait_closed()
+    log.append('end')
+
+
 class Run:
-    def __init__(self, fault_at=None, kind=None, workdir=None):
+    def __init__(self, fault_at=None, kind=None, workdir=None,
+                 scenario=None, server_kw=None):
+        self.scenario = scenario or globals()['scenario']
+        self.server_kw = server_kw or {}
         self.fault_at = fault_at
         self.kind = kind
         self.loop = new_loop()
@@ -150,7 +203,7 @@ class Run:
             conn = await asyncssh.connect(
                 '127.0.0.1', 2222, known_hosts=None, config=None,
                 client_keys=None, username='u', client_factory=self.Cli)
-            await scenario(conn, self.log)
+            await self.scenario(conn, self.log)
 
         async def main():
             self.acc = await asyncssh.listen(
@@ -158,7 +211,7 @@ class Run:
                 server_host_keys=[hostkey()],
                 process_factory=_server_process,
                 sftp_factory=lambda chan: asyncssh.SFTPServer(
-                    chan, chroot=self.tmp))
+                    chan, chroot=self.tmp), **self.server_kw)
             # tap every write of both directions from the very first byte
             orig = loop.net.connect
 
